@@ -498,7 +498,10 @@ class Exec:
             if name in ("std::abs", "abs") and len(a) == 1 and a[0].kind in ("int", "bool"):
                 x = toint(a[0])
                 return Num("int", z3.If(x >= 0, x, -x))        # std::abs(int) is int
-            return mathfn.apply(self.ev, name, a)
+            try:
+                return mathfn.cpp_call(self.ev, name, a)
+            except mathfn.IllTypedCall as e:
+                raise IllTyped(str(e))
         raise Unsupported(f"free function {name} on non-numeric arguments")
 
     def ev_method_call(self, callee, args, g):
@@ -626,6 +629,11 @@ class Exec:
                 raise IllTyped(f"{what}: Handle type mismatch ({v.tname} vs {t.inner.name})")
             return v
         if isinstance(t, TObj):
+            if isinstance(v, EnumV) and t.p == 0 and t.cls.replace("::", ".") in self.dm.enums:
+                ens, evals = self.dm.enums[t.cls.replace("::", ".")]
+                if v.name.rsplit(".", 1)[0] != ens or v.name.rsplit(".", 1)[1] not in evals:
+                    raise IllTyped(f"{what}: value {v.name} is not a value of enum {t.cls}")
+                return v
             if isinstance(v, Num):
                 if t.p >= 1:
                     return ObjV(t.cls, t.p, z3.IntVal(0), TRUE)
